@@ -210,7 +210,26 @@ pub fn valid_key(v: &RV) -> bool {
 }
 
 pub fn rv_eq(a: &RV, b: &RV) -> Option<bool> {
+    // one and the same container holding a NaN compared with itself: element-wise it differs from itself,
+    // as one object it is itself; the statements do not settle it (don't-care)
+    let same = match (a, b) {
+        (RV::Arr(x), RV::Arr(y)) => Rc::ptr_eq(x, y),
+        (RV::Map(x), RV::Map(y)) => Rc::ptr_eq(x, y),
+        _ => false,
+    };
+    if same && has_nan(&to_val(a)) {
+        return None;
+    }
     ops::lang_eq(&to_val(a), &to_val(b))
+}
+
+fn has_nan(v: &Val) -> bool {
+    match v {
+        Val::Float(f) => f.is_nan(),
+        Val::Arr(a) => a.iter().any(has_nan),
+        Val::Map(m) => m.iter().any(|(k, v)| has_nan(k) || has_nan(v)),
+        _ => false,
+    }
 }
 
 type R = Result<RV, Stop>;
